@@ -504,6 +504,8 @@ func TestC19(t *testing.T) {
 				// receiving it) are not reported separately
 				sig := "host-first-part-differs"
 				switch {
+				case substituted:
+					sig = "empty-client-host-not-replaced-by-backend-host"
 				case !streamB && gotFirst == want+fmt.Sprintf(":%d", port):
 					sig = "host-first-part-has-client-port-appended"
 				case strings.HasPrefix(want, "[") && gotFirst == strings.Trim(want, "[]"):
